@@ -390,7 +390,8 @@ _BUILTIN_IMPL = {
     "repr": lambda it, v: it.format_value(v, 114),
     "callable": _callable,
     "list": lambda it, xs=(): ListTerm(xs.t) if isinstance(xs, ListTerm) else (
-        ListTerm(xs.term) if isinstance(xs, SymSeq) and getattr(xs, "term", None) is not None else list(it.iterate(xs))),
+        ListTerm(xs.term) if isinstance(xs, SymSeq) and getattr(xs, "term", None) is not None else (
+            SymSeq(xs.name, xs.n, xs.elem, xs.guard, xs.kind) if isinstance(xs, SymSeq) else list(it.iterate(xs)))),
     "tuple": lambda it, xs=(): tuple(it.iterate(xs)),
     "set": lambda it, xs=(): make_set(it, it.iterate(xs)),
     "frozenset": lambda it, xs=(): make_set(it, it.iterate(xs), frozen=True),
